@@ -73,6 +73,27 @@ func minInt(a, b int) int {
 	return b
 }
 
+// H_string_last: the string is the last thing in the buffer (nothing follows it): same round trip.
+func H_string_last(lo, hi int) {
+	n := lo + verifrt.Len(hi-lo)
+	msg := verifrt.Bytes(n)
+	buf := bytes.NewBuffer(nil)
+	e := NewEncoder(buf)
+	e.PutMessage(msg)
+	verifrt.Assert(e.CheckErr() == nil, "putmessage-ok")
+	d, _ := NewDecoder(bytes.NewReader(buf.Bytes()))
+	var got []byte
+	pn := verifrt.Catch(func() { got = d.PopMessage() })
+	verifrt.Assert(!pn, "popmessage-last-no-panic")
+	if pn {
+		return
+	}
+	verifrt.Assert(d.err == nil, "popmessage-last-ok")
+	verifrt.Assert(verifrt.SameBytes(got, msg), "popmessage-last-roundtrip")
+	rest, _ := d.GetRestOfMessage()
+	verifrt.Assert(len(rest) == 0, "popmessage-last-consumes-everything")
+}
+
 // H_string_too_large: a byte string of 2^24 bytes or more is refused rather than mis-encoded.
 func H_string_too_large(extra int) {
 	n := 1<<24 + extra
